@@ -2,6 +2,7 @@ package harness
 
 import (
 	"fmt"
+	"strings"
 	"testing"
 	"time"
 
@@ -141,12 +142,30 @@ func runC12With(t *testing.T, c simrt.Chooser, o Opts, forcedStep int, block int
 			estDur += time.Duration(ps.Spec.nprobes()) * win / time.Duration(n)
 		}
 		w = ps.World
+		if data, ok := w.Files[targetsFn]; ok && ps.Spec.Mode == "pairs" && p.pct("badlines", 40) {
+			// bad target-list lines: error records travel through the pipeline next to the frames
+			// and are queued in front of the sender when Ctrl-C comes
+			ls := strings.Split(strings.TrimSuffix(data, "\n"), "\n")
+			for i := 1 + p.n("nbad", 20); i > 0; i-- {
+				k := p.n("badpos", len(ls)+1)
+				ls = append(ls[:k], append([]string{`{"ip":"10.0.0.300","port":80}`}, ls[k:]...)...)
+			}
+			w.Files[targetsFn] = strings.Join(ls, "\n") + "\n"
+			simrtFault(out, "bad-target-lines")
+		}
 		if p.pct("nicstall", 30) {
 			w.NicStallEvery = 1 + p.n("stallevery", 6)
 			d := p.dur("stallfor", time.Microsecond, 50*time.Millisecond)
+			blocked := p.pct("nicblocked", 25) && forcedStep == 0
+			if blocked {
+				d = time.Hour // a NIC queue that does not drain at all: the user hits Ctrl-C
+				forceTime = true
+			}
 			w.NicStallFor = d.String()
 			nicStall = d
-			estDur += time.Duration(ps.Spec.nprobes()) * d
+			if !blocked {
+				estDur += time.Duration(ps.Spec.nprobes()) * d
+			}
 		}
 		if p.pct("nicerr", 15) {
 			w.NicErrEvery = 1 + p.n("errevery", 3) // error bursts: more errors than the 100-slot buffers
@@ -225,7 +244,15 @@ func runC12With(t *testing.T, c simrt.Chooser, o Opts, forcedStep int, block int
 			}
 		}
 		if ps != nil {
-			bound += time.Duration(nAfter+1)*(nicStall+limiterInterval) + time.Duration(recAfter+1)*outStall
+			// the scan call does not wait for the sender: a frame write that is stalled (or waits for
+			// its turn at the limiter) when Ctrl-C comes finishes on its own, after the call returned
+			// (an implementation that lets the write in flight complete is within "bounded time" as
+			// long as that write is: one ordinary stall is allowed for, a NIC that is blocked for an
+			// hour is not something the call may wait for)
+			if nicStall < time.Second {
+				bound += nicStall + limiterInterval
+			}
+			bound += time.Duration(recAfter+1) * outStall
 		} else {
 			bound += time.Duration(workers+dialsAfter)*limiterInterval + time.Duration(recAfter+1)*outStall
 			nAfter = dialsAfter - workers
